@@ -710,7 +710,12 @@ class DataflowTransactionContext(ABC):  # pylint: disable=too-few-public-methods
         livein_information = self._null_set(key)
 
         for next_b in next_blocks_global(self._function, block):
-            livein_information = self._union(key, livein_information, liveout[next_b])
+            # a value is live on the edge to next_b only if the branch condition lets it take that edge.
+            livein_information = self._union(
+                key,
+                livein_information,
+                self._intersection(key, liveout[next_b], self._path_contexts[key][next_b][block]),
+            )
 
         if (
             block.is_callsub_block
